@@ -114,6 +114,7 @@ func main() {
 			}
 		}
 	}
+	os.MkdirAll(*outDir, 0o755)
 	preFile := filepath.Join(*outDir, "pre_overlay.json")
 	pb, _ := json.Marshal(struct{ Replace map[string]string }{pre})
 	os.WriteFile(preFile, pb, 0o644)
